@@ -1026,14 +1026,16 @@ def o8(h):
     def spec_g(i, o):
         X, U, dN = i['X'], i['U'], i['dN']
         els = two_el(X)
-        l, r = [], []
+        atoms = []
         for e, (v, J, det) in enumerate(els):
+            l, r = [], []
             for rr in range(2):
                 for cc in range(2):
                     l.append(v_add(v_mul(o[e, 0, rr, 0], J[0][cc]), v_mul(o[e, 0, rr, 1], J[1][cc])))
                     r.append(v_sum([v_mul(dN[0, a, cc], U[TWO_EL_CONNS[e][a]][rr]) for a in range(3)]))
-        return pos(els[0][2], els[1][2]), [Eq(l, r, name='gradU_times_J_eq_sum_u_dN')]
-    c.prove('FS2grad', spec_g, cap=40)
+            atoms.append(Eq(l, r, name='gradU_times_J_eq_sum_u_dN[el%d]' % e))
+        return pos(els[0][2], els[1][2]), atoms
+    c.prove('FS2grad', spec_g, cap=60)
 
 
 # ------------------------------------------------------------------------------------------ Surface.py (P1 edge helpers)
